@@ -45,7 +45,7 @@ fn hmesh(oriented: bool, v: &[P3], idx: &[[u32; 3]]) -> String {
 }
 
 pub fn exec(func: &str, a: &mut Args) -> String {
-    if std::env::var("C17_DRY").is_ok() { return "dry".into(); }
+    if std::env::var("C17_DRY").is_ok() { return "dry".into(); } // debugging aid: list the generated cases without calling parry
     match func {
         "aabb_split" => { let x = aabb(a); let axis = a.u(); let bias = a.f(); let eps = a.f();
             match x.canonical_split(axis, bias, eps) {
